@@ -31,7 +31,7 @@ DIMS = dict(
 	prefix=['AT', 'A', 'ATGAC'],
 	coll=COLLS,
 	container=['array', 'list', 'annotated-array', 'annotated-list', 'list-mixed-element-dtypes'],
-	ids=['default', 'int64', 'ascii', 'unicode', 'bytes', 'uint8'],
+	ids=['default', 'int64', 'ascii', 'unicode', 'bytes', 'uint8', 'object-array', 'numpy-str-array'],
 	meta=['none', 'unicode', 'nested-extra', 'empty-strings', 'mixed-empty'],
 	comp=['none', 'gzip0', 'gzip9', 'lzf', 'szip', 'gzip-default'],
 )
@@ -86,6 +86,10 @@ def make_ids(kind, n):
 		return [f'génome-{i}-中é' for i in range(n)]
 	if kind == 'bytes':
 		return [f'id{i}'.encode() for i in range(n)]
+	if kind == 'object-array':
+		return np.array([f'obj-ü{i}' for i in range(n)], dtype=object)
+	if kind == 'numpy-str-array':
+		return np.array([f'np_{i}' * (i + 1) for i in range(n)])
 
 
 def make_meta(kind):
@@ -236,7 +240,7 @@ def roundtrip(sh, v, d):
 	sh.count('roundtrips')
 	if v['comp'] != 'none':
 		sh.count('compressed')
-	if v['ids'] in ('unicode', 'ascii', 'bytes'):
+	if v['ids'] in ('unicode', 'ascii', 'bytes', 'object-array', 'numpy-str-array'):
 		sh.count('string_ids')
 	if ks.index_dtype.itemsize == 8 and 't' in v['coll']:
 		sh.count('top_of_uint64_range')
